@@ -93,6 +93,21 @@ pub fn run_explorer_ext(
         let remaining = deadline.saturating_duration_since(now);
         // (a configuration may take up to a third of what is left: the cost estimate that orders them is rough)
         let share = (remaining / (nspecs - si) as u32).max(remaining / 3);
+        if remaining.is_zero() {
+            // the wall budget is used up: a configuration that cannot even start is reported as capped (running its
+            // initial state alone can take minutes on the largest volume shapes)
+            eprintln!("[{prop}] {}: NOT STARTED (wall budget exhausted) CAPPED", spec.cfg.name);
+            let mut st = Stats::default();
+            st.capped = Some("not started: the wall budget was exhausted by the configurations before it".into());
+            per_cfg.push(json!({
+                "config": spec.cfg.name,
+                "alphabet_size": spec.alphabet.len(),
+                "depth_requested": spec.depth,
+                "prefix": spec.prefix.iter().map(|o| format!("{o:?}")).collect::<Vec<_>>(),
+                "stats": report::stats_json(&st),
+            }));
+            continue;
+        }
         let limits = Limits { deadline: Some(now + share.max(Duration::from_millis(200))), ..Default::default() };
         let (st, viols) = explore::explore(prop, &spec.cfg, &spec.prefix, &spec.alphabet, spec.depth, checker, &limits);
         eprintln!(
